@@ -2,6 +2,12 @@
 (diagnostics and known-finding key): it re-reads the logged layers to say which field of which section differs."""
 
 
+import os
+
+# the JVM's default maximum heap is a quarter of the machine; several checks run side by side on it
+os.environ.setdefault("_JAVA_OPTIONS", "-Xmx6g")
+
+
 def _req_ok(r, lab):
     k, op, vals = r["key"], r["op"], r["vals"]
     if op == "In":
@@ -96,12 +102,13 @@ CONF = {
         {"module": "MC_SloLayering", "cfg": {"quick": None, "thorough": "MC_hist.cfg"}, "timeout": 1500},
     ],
     "gen": [
-        {"module": "Gen_SloLayering", "cfg": "Gen_a.cfg", "timeout": 900, "sample": {"quick": 40, "thorough": 6}},
-        {"module": "Gen_SloLayering", "cfg": "Gen_b.cfg", "timeout": 900, "sample": {"quick": 25, "thorough": 4}},
-        {"module": "Gen_SloLayering", "cfg": "Gen_c.cfg", "timeout": 900, "sample": {"quick": 150, "thorough": 15}},
+        {"module": "Gen_SloLayering", "cfg": "Gen_a.cfg", "timeout": 900, "sample": {"quick": 40, "thorough": 10}},
+        {"module": "Gen_SloLayering", "cfg": "Gen_b.cfg", "timeout": 900, "sample": {"quick": 25, "thorough": 8}},
+        {"module": "Gen_SloLayering", "cfg": "Gen_c.cfg", "timeout": 900, "sample": {"quick": 150, "thorough": 30}},
     ],
     "go": [{"pkg": "pkg/slo-controller/nodeslo", "test": "TestVerifC20"}],
-    "trace": {"module": "SloLayeringTrace", "cfg": "Trace.cfg", "chunk_events": 40000},
+    # an event is ~3 kB (every leaf of five sections for every node): small chunks keep one TLC run near 1 GB
+    "trace": {"module": "SloLayeringTrace", "cfg": "Trace.cfg", "chunk_events": 12000},
     "signature": sig,
     "rule": "one segment per life of the ConfigMap handler (reset, then ConfigMap events each followed by getNodeSLOSpec for "
             "every node); distinct by content; non-trivial = at least one checked event",
